@@ -439,11 +439,22 @@ func (s *Store) update(kind string, obj client.Object, sub bool) (client.Object,
 }
 
 // patchMerge applies a JSON merge patch.
-func (s *Store) patchMerge(kind string, obj client.Object, data []byte) (client.Object, client.Object, error) {
+// sub = the patch goes to the status subresource: only the status part of the result is kept.
+// A merge patch carries no resourceVersion unless the caller asked for an optimistic lock, in
+// which case a stale one is a conflict.
+func (s *Store) patchMerge(kind string, obj client.Object, data []byte, sub bool) (client.Object, client.Object, error) {
 	k := keyOf(obj.GetNamespace(), obj.GetName())
 	old := s.objs[kind][k]
 	if old == nil {
 		return nil, nil, apierrors.NewNotFound(gr(kind), obj.GetName())
+	}
+	var probe struct {
+		Metadata struct {
+			ResourceVersion string `json:"resourceVersion"`
+		} `json:"metadata"`
+	}
+	if json.Unmarshal(data, &probe) == nil && probe.Metadata.ResourceVersion != "" && probe.Metadata.ResourceVersion != old.GetResourceVersion() {
+		return old, nil, apierrors.NewConflict(gr(kind), obj.GetName(), fmt.Errorf("the object has been modified; please apply your changes to the latest version and try again"))
 	}
 	ob, err := json.Marshal(old)
 	if err != nil {
@@ -457,7 +468,11 @@ func (s *Store) patchMerge(kind string, obj client.Object, data []byte) (client.
 	if err := json.Unmarshal(merged, st); err != nil {
 		return old, nil, apierrors.NewBadRequest(err.Error())
 	}
-	if statusSubresource[kind] {
+	if sub {
+		patched := st
+		st = old.DeepCopyObject().(client.Object)
+		copyStatus(st, patched)
+	} else if statusSubresource[kind] {
 		copyStatus(st, old)
 	}
 	st.SetUID(old.GetUID())
